@@ -932,7 +932,10 @@ pub fn designated(rh: &RefHeaders, img: &Image, op: Op) -> Vec<(u64, u64)> {
     match op.kind {
         OpKind::SectionData | OpKind::AsStrtab | OpKind::AsRels | OpKind::AsRelas | OpKind::AsNotes => {
             let h = &img.shdr_pool[op.arg as usize];
-            v.push((h.sh_offset, h.sh_size));
+            // SHT_NOBITS occupies no file bytes: its data query designates nothing
+            if !(op.kind == OpKind::SectionData && h.sh_type == rl::SHT_NOBITS) {
+                v.push((h.sh_offset, h.sh_size));
+            }
         }
         OpKind::SegNotes => {
             let p = &img.phdr_pool[op.arg as usize];
